@@ -694,7 +694,7 @@ func derivedTags(in Input) []string {
 // its request position), a different index / root at every position, victims anywhere in their
 // sub-batch, and sessions in which the same batch is asked for again after the failure has gone.
 
-const partialEvery = 8 // every eighth generated input (that is not a session) is of this family
+const partialEvery = 6 // every sixth generated input (that is not a session) is of this family
 
 var batchKinds = []string{"attestations", "syncsel", "contributions", "attestations", "slotsel", "syncroots"}
 
@@ -807,7 +807,7 @@ func genPartial(r *Rand, i int) Input {
 		if pool[p].Multi || r.Chance(1, 4) {
 			cands = append(cands, j)
 			if pool[p].Dist && j > 0 {
-				cands = append(cands, j, j)
+				cands = append(cands, j, j, j)
 			}
 		}
 	}
